@@ -27,7 +27,12 @@ class Stage:
         self.sid = sid
         self.log = log
 
+    delay = 0.0
+
     def __call__(self, v, *a, **k):
+        if self.delay:
+            import time
+            time.sleep(self.delay)
         self.log.append([self.sid, _tok(a, k)])
         return tuple(v) + (self.sid,)
 
@@ -171,6 +176,7 @@ def replay_history(kind, hist, shared=False):
     ctr = [0]
     diffs = []
     pool_ = {}
+    namemap = {}
     for idx, h in enumerate(hist):
         op = h["op"]
         if op == "add":
@@ -178,6 +184,7 @@ def replay_history(kind, hist, shared=False):
             if kind == "Parallel":
                 ctr[0] += 1
                 m.add_step(st, "n%d" % ctr[0])
+                namemap["n%d" % ctr[0]] = h["s"]
             else:
                 m.add_step(st)
             raised = False
@@ -201,6 +208,23 @@ def replay_history(kind, hist, shared=False):
                 okpairs = all(isinstance(v, tuple) and len(v) == 1 for v in out.values())
                 if not okpairs or len(out) != len(h["out"]):
                     diffs.append((idx, "parallel_mapping", h["out"], repr(out)))
+                elif any(namemap.get(nm) != v[0] for nm, v in out.items()):
+                    diffs.append((idx, "parallel_name_to_result", {nm: namemap.get(nm) for nm in out}, repr(out)))
+                cfgs = list(getattr(m, "step_configs", []))
+                if not shared and len(cfgs) >= 2 and not diffs:
+                    # the same history state once more with an order-sensitive aggregator, the later-declared steps finishing first
+                    for p_, c in enumerate(cfgs):
+                        c[1].delay = 0.004 * (len(cfgs) - 1 - p_)
+                    m.aggregator = list
+                    try:
+                        agg = m((), *a, **k)
+                    finally:
+                        m.aggregator = None
+                        for c in cfgs:
+                            c[1].delay = 0.0
+                    want = [(c[1].sid,) for c in cfgs]
+                    if list(agg) != want:
+                        diffs.append((idx, "aggregator_order_after_history", want, repr(agg)))
             else:
                 got_out = list(out)
                 exp_out = list(h["out"])
@@ -532,7 +556,7 @@ def run(run):
     if "AggregatorSeesDeclaredOrder" not in r.violated:
         raise tlc.TLCFailure("vacuity guard failed: insertion-order design not rejected by AggregatorSeesDeclaredOrder")
     run.extra["vacuity_guard"] = "HandOver=insertion violates AggregatorSeesDeclaredOrder (N=3,W=2)"
-    maxlen = 4 if quick else 5
+    maxlen = 5
     pcfg = "CONSTANTS Stages = {1,2,3}\nMaxLen = %d\nExport = TRUE\nSPECIFICATION Spec\nCHECK_DEADLOCK FALSE\n" \
            "INVARIANT RunAgreesWithList\nINVARIANT FirstTrueLaw\nINVARIANT RoundsLaw\nINVARIANT ExportInv\n" % maxlen
     rp = tlc.run("MC_Pipelines", pcfg, workers=1, timeout=900)
@@ -591,11 +615,14 @@ def run(run):
                     "aggregator input / mapping differs from declared order under TLC schedule %s" % k)
 
     # --- (B) list-model histories replayed ----------------------------------------------------
+    # histories in which a successful remove is followed by an add and then a run: all of them are replayed on the ParallelModel in
+    # both tiers (bookkeeping kept beside the step list goes stale exactly there), the others are sampled in the quick tier
+    rar = [h for h in hists if _remove_add_run(h)]
     if quick and len(hists) > 1500:
         hists = rng.sample(hists, 1500)
     for kind in ("Configurable", "Sequential", "Parallel"):
         bad = 0
-        for hi_, h in enumerate(hists):
+        for hi_, h in enumerate(hists + [x for x in rar if x not in hists] if kind == "Parallel" else hists):
             diffs = replay_history(kind, h)
             run.case((kind, _hkey(h)), nontrivial=True)
             run.traces += 1
@@ -712,6 +739,16 @@ def _fact(n):
     for i in range(2, n + 1):
         f *= i
     return f
+
+
+def _remove_add_run(h):
+    ops = [o["op"] for o in h]
+    for i, o in enumerate(ops):
+        if o == "remove" and not h[i]["raised"] and "add" in ops[i + 1:]:
+            j = i + 1 + ops[i + 1:].index("add")
+            if any(op not in ("add", "remove") for op in ops[j + 1:]):
+                return True
+    return False
 
 
 def _hkey(h):
